@@ -141,7 +141,16 @@ pub fn gen_case(seed: u64, idx: u64, pairs: usize) -> Case {
     }
     // an older, longer file may already sit at the output path
     let stale_output = if rng.chance(1, 4) { 4096 + rng.usize_below(4096) } else { 0 };
-    let input = Input { mode, files, trailing_newline, stale_output };
+    // the same file named twice on the command line (its rows count twice),
+    // and inputs that are FIFOs instead of regular files
+    let mut listed_twice: Vec<usize> = Vec::new();
+    if rng.chance(1, 6) {
+        for _ in 0..rng.urange(1, 2) {
+            listed_twice.push(rng.usize_below(nfiles));
+        }
+    }
+    let fifo: Vec<bool> = if rng.chance(1, 5) { (0..nfiles).map(|_| rng.chance(1, 2)).collect() } else { vec![] };
+    let input = Input { mode, files, trailing_newline, stale_output, listed_twice, fifo };
     let total = input.rows() as u32;
     let mut runs = Vec::new();
     for _ in 0..pairs {
@@ -211,6 +220,12 @@ fn account(st: &mut WStats, idx: u64, case: &Case, run: &crate::world::CaseRun) 
     input_d.str(&case_to(&Case { input: case.input.clone(), runs: vec![] }).to_string());
     if case.input.files.iter().any(|f| f.iter().any(|(k, _)| k.is_empty())) {
         bump(&mut st.counters, "input.contains_the_empty_key", 1);
+    }
+    if !case.input.listed_twice.is_empty() {
+        bump(&mut st.counters, "input.same_file_listed_twice", 1);
+    }
+    if case.input.fifo.iter().enumerate().any(|(i, b)| *b && !case.input.listed_twice.contains(&i)) {
+        bump(&mut st.counters, "input.fifo_instead_of_regular_file", 1);
     }
     if case.input.trailing_newline.iter().any(|b| !*b) {
         bump(&mut st.counters, "input.file_without_trailing_newline", 1);
@@ -436,10 +451,28 @@ fn minimise(case: &Case, oracle: &str, root: &Path) -> (Case, u64) {
                 chunk /= 2;
             }
         }
+        // plain inputs first: no file listed twice, no FIFO
+        if !cur.input.listed_twice.is_empty() {
+            let mut c = cur.clone();
+            c.input.listed_twice.clear();
+            if fails(&c) {
+                cur = c;
+            }
+        }
+        if cur.input.fifo.iter().any(|b| *b) {
+            let mut c = cur.clone();
+            c.input.fifo.clear();
+            if fails(&c) {
+                cur = c;
+            }
+        }
         // fewer files
         let mut f = 0;
         while cur.input.files.len() > 1 && f < cur.input.files.len() {
             let mut c = cur.clone();
+            if !c.input.listed_twice.is_empty() || c.input.fifo.iter().any(|b| *b) {
+                break; // indices refer to files: keep the file list as it is
+            }
             let rows = c.input.files.remove(f);
             if f < c.input.trailing_newline.len() {
                 c.input.trailing_newline.remove(f);
